@@ -649,4 +649,7 @@ func runConc(args []string) {
 		br = 2
 	}
 	bigRead(seed, br, want, enc)
+	addRem(seed, br, want, enc)
+	keysStable(seed, br+1, want, enc)
+	streamTrim(seed, br, want, enc)
 }
